@@ -23,8 +23,8 @@ def normalise(findings):
     out = []
     for kind, case in findings:
         parts = kind.split("|")
-        if parts[0] == "c02-panic" and len(parts) == 3:
-            loc, mc = parts[1], parts[2]
+        if parts[0] == "c02-panic" and len(parts) in (3, 4):
+            loc, mc = parts[1], parts[2] + (":" + parts[3] if len(parts) == 4 else "")
             m = re.match(r"(.*):(\d+)$", loc)
             if m:
                 f, ln = m.group(1), int(m.group(2))
@@ -62,8 +62,9 @@ def check(res, thorough):
             res.coverage["input_distribution"] = s["stats"]
             res.coverage["findings_by_kind"] = {k: sum(1 for f in findings if f[0] == k) for k in {f[0] for f in findings}}
             res.samples = s["samples"]
-        res.rule = ("three streams of rule strings, one third each: generated from the documented grammar (Full / Tame profiles), token-level mutations of generated "
-                    "rules (delete, duplicate, swap, replace, insert a token), raw noise over the rule alphabet (incl. 20-digit numbers, escapes, tabs); words: "
+        res.rule = ("four streams of rule strings, one quarter each: generated from the documented grammar (Full / Tame profiles), token-level mutations of generated "
+                    "rules (delete, duplicate, swap, replace, insert a token), raw noise over the rule alphabet (incl. 20-digit numbers, escapes, tabs), short edge rules "
+                    "(1-3 inputs and 0-3 outputs mixing segments, `$`, `%`, wildcards over a small inventory, on 1-3 syllable words); words: "
                     "generated, mutated, noise; every eighth case with a (de)romaniser line, a third of those noise; step budget 60k loop iterations "
                     "(words <= ~20 segments, rules <= ~40 tokens: far above |word| x |rule|); non-trivial = the call changed a word or returned an error")
         res.assumptions = ["release profile: integer overflow wraps instead of panicking (a debug build panics in more places)",
